@@ -161,7 +161,7 @@ def periodic_current_source(id: str, nodes: tuple[str, str], wavetype: str, I: f
 def lamp(id: str, nodes: tuple[str, str], P: float, V_ref: float) -> Component:
     if P < 0:
         raise ValueError('P must be greater than zero.')
-    if V_ref < 0:
+    if V_ref <= 0:
         raise ValueError('V_ref must be greater than zero.')
     return Component(
         type='lamp',
@@ -173,7 +173,7 @@ def lamp(id: str, nodes: tuple[str, str], P: float, V_ref: float) -> Component:
 def resistive_load(id: str, nodes: tuple[str, str], P: float, V_ref: float) -> Component:
     if P < 0:
         raise ValueError('P must be greater than zero.')
-    if V_ref < 0:
+    if V_ref <= 0:
         raise ValueError('V_ref must be greater than zero.')
     return Component(
         type='resistive_load',
